@@ -478,3 +478,114 @@ def impl_c15(case, scratch):
         outs.append({"expand": e, "tree": p, "calls": calls, "pstack": len(ctx.parser_stack)})
         ctx.parser_stack = []
     return {"outcome": "ok", "outs": outs}
+
+
+# ---------------------------------------------------------------- C08
+C08_TEMPLATES = {
+    "a": "A[{{{1|}}}]",
+    "b": "B({{{1}}},{{{x|dx}}})",
+    "s": "[{{{1}}}|{{{2|}}}|{{{k|}}}]",
+    "sp": " y ",
+    "w1": "{{#invoke:echo|parent}}",
+    "w1args": "{{#invoke:echo|main|{{{1|}}}|k={{{k|}}}}}",
+    "w2": "({{w1|{{{1|}}}|z={{{z|}}}}})",
+    "star": "* item",
+}
+_c08_ctx = None
+_c08_n = 0
+
+
+def impl_c08(case, scratch):
+    """case: kind in {args, parent, preprocess, expandtemplate, callpf}; returns echo output and oracle expansions"""
+    global _c08_ctx, _c08_n
+    if _c08_ctx is None:
+        ctx = new_ctx(scratch)
+        ctx.add_page("Module:ustring:ustring", 828, USTRING_STUB, model="Scribunto")
+        ctx.add_page("Module:echo", 828, ECHO_MODULE + "", model="Scribunto")
+        for k, v in C08_TEMPLATES.items():
+            ctx.add_page("Template:" + k, 10, v)
+        ctx.db_conn.commit()
+        _c08_ctx = ctx
+    ctx = _c08_ctx
+    title = case.get("title", "Tt")
+    kind = case["kind"]
+
+    def ex(text, **kw):
+        ctx.start_page(title)
+        return ctx.expand(text, **kw)
+
+    def echo(out):
+        if out.startswith("<<") and out.endswith(">>"):
+            return out[2:-2]
+        return None
+    res = {"outcome": "ok"}
+    if kind == "args":
+        src = "".join("|" + a for a in case["args"])
+        out = ex("{{#invoke:echo|main" + src + "}}")
+        res["raw"] = out
+        e = echo(out)
+        res["lua"] = undump(e) if e is not None else None
+        res["each"] = [ex(a) for a in case["args"]]            # each argument expanded in the calling page context
+        got = []
+        ex("{{s" + src + "}}", template_fn=lambda n, ht: got.append([n, [[k, v] for k, v in ht.items()]]) and None)
+        got = [g[1] for g in got if g[0] == "s"]
+        res["tfn"] = got[-1] if got else None
+    elif kind == "parent":
+        src = "".join("|" + a for a in case["args"])
+        call = "{{" + case["wrapper"] + src + "}}"
+        out = ex(call)
+        res["raw"] = out
+        m = out[out.find("<<") + 2:out.rfind(">>")] if "<<" in out else None
+        if m is not None and "|" in m:
+            t, d = m.split("|", 1)
+            res["parent_title"] = t
+            res["parent_args"] = undump(d)
+        got = []
+        ex(call, template_fn=lambda n, ht: got.append([n, [[k, v] for k, v in ht.items()]]) and None)
+        res["tfn"] = got
+    elif kind == "preprocess":
+        _c08_n += 1
+        name = "frag%dx%d" % (os.getpid(), _c08_n)
+        lua_str = "[==[" + case["frag"] + "]==]"
+        ctx.add_page("Module:" + name, 828,
+                     "local e = {}\nfunction e.main(frame) return '<<' .. frame:preprocess(" + lua_str + ") .. '>>' end\nreturn e",
+                     model="Scribunto")
+        out = ex("{{#invoke:%s|main}}" % name)
+        res["raw"] = out
+        res["lua"] = echo(out)
+        res["direct"] = ex(case["frag"])
+    elif kind == "expandtemplate":
+        _c08_n += 1
+        name = "et%dx%d" % (os.getpid(), _c08_n)
+        items = ", ".join(("[%d]" % k if isinstance(k, int) else "[%r]" % k).replace("'", '"') + " = [==[" + v + "]==]"
+                          for k, v in case["targs"])
+        ctx.add_page("Module:" + name, 828,
+                     "local e = {}\nfunction e.main(frame) return '<<' .. frame:expandTemplate{title = %s, args = {%s}} .. '>>' end\nreturn e"
+                     % (json_str(case["ttitle"]), items), model="Scribunto")
+        out = ex("{{#invoke:%s|main}}" % name)
+        res["raw"] = out
+        res["lua"] = echo(out)
+        res["named_form"] = ex("{{" + case["ttitle"] + "".join("|%s=%s" % (k, v) for k, v in case["targs"]) + "}}")
+        ints = sorted(k for k, _ in case["targs"] if isinstance(k, int))
+        if ints == list(range(1, len(ints) + 1)):
+            d = dict((k, v) for k, v in case["targs"])
+            res["positional_form"] = ex("{{" + case["ttitle"] + "".join("|" + d[i] for i in ints)
+                                        + "".join("|%s=%s" % (k, v) for k, v in case["targs"] if not isinstance(k, int)) + "}}")
+    elif kind == "callpf":
+        _c08_n += 1
+        name = "pf%dx%d" % (os.getpid(), _c08_n)
+        items = ", ".join("[==[" + v + "]==]" for v in case["pargs"])
+        ctx.add_page("Module:" + name, 828,
+                     "local e = {}\nfunction e.main(frame) return '<<' .. frame:callParserFunction{name = %s, args = {%s}} .. '>>' end\nreturn e"
+                     % (json_str(case["pname"]), items), model="Scribunto")
+        out = ex("{{#invoke:%s|main}}" % name)
+        res["raw"] = out
+        res["lua"] = echo(out)
+        res["direct"] = ex("{{" + case["pname"] + ":" + "|".join(case["pargs"]) + "}}")
+    res["stack"] = list(ctx.expand_stack)
+    return res
+
+
+def json_str(s):
+    import json as _j
+    return _j.dumps(s)
